@@ -365,6 +365,68 @@ fn grammar_string(r: &mut Rng) -> String {
     s
 }
 
+/// Every textual form of a random address value: the longest (zero-padded groups,
+/// dotted-quad tail: up to 45 characters), the compressed ones, upper case, with and
+/// without brackets; the reference classification is std's own parser.
+fn address_string(r: &mut Rng) -> String {
+    let mut s = String::from("tcp://");
+    let host = if r.chance(1, 4) {
+        let o: Vec<u8> = (0..4)
+            .map(|_| {
+                let any = r.below(256) as u8;
+                *r.pick(&[0u8, 1, 9, 10, 99, 100, 199, 255, any])
+            })
+            .collect();
+        format!("{}.{}.{}.{}", o[0], o[1], o[2], o[3])
+    } else {
+        let g: Vec<u16> = (0..8)
+            .map(|_| match r.below(5) {
+                0 => 0,
+                1 => 0xffff,
+                2 => r.below(16) as u16,
+                _ => r.below(0x10000) as u16,
+            })
+            .collect();
+        let hex = |x: u16, r: &mut Rng| match r.below(3) {
+            0 => format!("{x:04x}"),
+            1 => format!("{x:X}"),
+            _ => format!("{x:x}"),
+        };
+        let body = match r.below(4) {
+            0 => std::net::Ipv6Addr::new(g[0], g[1], g[2], g[3], g[4], g[5], g[6], g[7]).to_string(),
+            1 => (0..8).map(|i| hex(g[i], r)).collect::<Vec<_>>().join(":"),
+            2 => {
+                // six groups and a dotted-quad tail
+                let head = (0..6).map(|i| hex(g[i], r)).collect::<Vec<_>>().join(":");
+                format!("{head}:{}.{}.{}.{}", g[6] >> 8, g[6] & 255, g[7] >> 8, g[7] & 255)
+            }
+            _ => {
+                // a '::' somewhere, groups on either side
+                let a = r.below(7);
+                let b = r.below(7 - a);
+                let left = (0..a).map(|i| hex(g[i], r)).collect::<Vec<_>>().join(":");
+                let right = (0..b).map(|i| hex(g[7 - i], r)).collect::<Vec<_>>().join(":");
+                let tail = if r.chance(1, 3) && a + b < 6 {
+                    format!("{}{}.{}.{}.{}", if b > 0 { ":" } else { "" }, g[6] >> 8, g[6] & 255, g[7] >> 8, g[7] & 255)
+                } else {
+                    String::new()
+                };
+                format!("{left}::{right}{tail}")
+            }
+        };
+        if r.chance(2, 3) {
+            format!("[{body}]")
+        } else {
+            body
+        }
+    };
+    s.push_str(&host);
+    s.push(':');
+    let any = r.below(70000) as u32;
+    s.push_str(&r.pick(&[0u32, 1, 80, 5555, 65535, 65536, any]).to_string());
+    s
+}
+
 fn random_unicode(r: &mut Rng) -> String {
     let n = r.below(24);
     let mut s = String::new();
@@ -405,6 +467,7 @@ impl Prop for C19 {
         for b in 0..batches {
             v.push(json!({"kind": "grammar", "seed": seed, "batch": b, "n": 20_000}));
             v.push(json!({"kind": "unicode", "seed": seed, "batch": b, "n": 20_000}));
+            v.push(json!({"kind": "address", "seed": seed, "batch": b, "n": 10_000}));
         }
         v
     }
@@ -425,7 +488,7 @@ impl Prop for C19 {
                 ctx.sample("exhaustive", || case.clone());
                 enumerate(prefix, first, maxlen, ctx);
             }
-            k @ ("grammar" | "unicode") => {
+            k @ ("grammar" | "unicode" | "address") => {
                 let seed = case["seed"].as_u64().unwrap_or(0);
                 let batch = case["batch"].as_u64().unwrap_or(0);
                 let n = case["n"].as_u64().unwrap_or(0);
@@ -434,6 +497,12 @@ impl Prop for C19 {
                 for _ in 0..n {
                     let s = if k == "grammar" {
                         grammar_string(&mut r)
+                    } else if k == "address" {
+                        let s = address_string(&mut r);
+                        if s.len() > 6 + 39 + 6 {
+                            ctx.count("ipv6_literals_longer_than_39_chars");
+                        }
+                        s
                     } else {
                         random_unicode(&mut r)
                     };
@@ -457,6 +526,7 @@ impl Prop for C19 {
     fn floors(&self, _tier: Tier) -> Vec<(&'static str, u64)> {
         vec![
             ("exhaustive_strings", 1_000_000),
+            ("ipv6_literals_longer_than_39_chars", 1000),
             ("accepted_tcp", 1000),
             ("accepted_ipc", 1000),
             ("rejected", 1000),
